@@ -188,6 +188,13 @@ func (s *aliasSumm) derived(v ssa.Value) map[ssa.Value]bool {
 				}
 			case *ssa.Extract:
 				walk(x)
+			case *ssa.MakeClosure:
+				// a function literal that captures the variable by reference carries its address
+				for _, bnd := range x.Bindings {
+					if bnd == v {
+						walk(x)
+					}
+				}
 			}
 		}
 	}
